@@ -1,3 +1,4 @@
+use crate::command::parser::commands::query::check_expr_nesting;
 use crate::command::parser::error::ParseError;
 use crate::command::types::{
     AggSpec, Command, CompareOp, EventSequence, EventTarget, Expr, OrderSpec, QueryCommand,
@@ -140,17 +141,22 @@ peg::parser! {
 
         rule expression() -> Expr = or_expr()
 
+        // Left-factored: the left operand is parsed once (no re-parse on backtrack)
         rule or_expr() -> Expr
-            = x:and_expr() _ ci("OR") _ y:or_expr() {
-                Expr::Or(Box::new(x), Box::new(y))
+            = x:and_expr() rest:( _ ci("OR") _ y:or_expr() { y } )? {
+                match rest {
+                    Some(y) => Expr::Or(Box::new(x), Box::new(y)),
+                    None => x,
+                }
             }
-            / and_expr()
 
         rule and_expr() -> Expr
-            = x:factor() _ ci("AND") _ y:and_expr() {
-                Expr::And(Box::new(x), Box::new(y))
+            = x:factor() rest:( _ ci("AND") _ y:and_expr() { y } )? {
+                match rest {
+                    Some(y) => Expr::And(Box::new(x), Box::new(y)),
+                    None => x,
+                }
             }
-            / factor()
 
         rule factor() -> Expr
             = ci("NOT") _ f:factor() { Expr::Not(Box::new(f)) }
@@ -266,6 +272,7 @@ peg::parser! {
 }
 
 pub fn parse(input: &str) -> Result<Command, ParseError> {
+    check_expr_nesting(input)?;
     let inputs = plotql_parser::plot_query(input).map_err(map_peg_error)?;
 
     // Validate that all metrics are the same
